@@ -467,6 +467,9 @@ def f6(ctx):
                 if isinstance(w[2], sqlmod.Stmt):
                     sub = w[2]
                     same = _strip_select(sub) == _strip_select(sst) and sub.colnames == ['rowid']
+                    # the query is evaluated twice (file names, then the rows to delete): it must pick the same rows
+                    if 'RANDOM(' in (st.text or '').upper().replace(' ', '') or 'RANDOM(' in (sst.text or '').upper().replace(' ', ''):
+                        same = False
                     pa, pb = ev.d.get('params'), sev.d.get('params')
                     same_params = pa is not None and pb is not None and not isinstance(pa, V) and \
                         not isinstance(pb, V) and list(pa) == list(pb)
